@@ -177,7 +177,16 @@ def rule_c(ctx):
     c01.rule_b(ctx)
 
 
+def rule_d(ctx):
+    from . import c01
+    c01.rule_i(ctx)
+    c01.rule_c(ctx)
+    c01.rule_d(ctx)
+    c01.rule_g(ctx)
+
+
 RULES = [
+    ("C15.d", "the written times are monotone: time writes under the queue lock, deadlines > now, step_until target >= now", rule_d),
     ("C15.a", "seqlock protocol shape and ordering floors", rule_a),
     ("C15.b", "who may use the unsynchronised load; retrying read", rule_b),
     ("C15.c", "single writer by type", rule_c),
